@@ -342,7 +342,7 @@ def run(ctx, focus='C01'):
     msgs += bm if (not quick or focus == 'C14') else (rng.sample(bm[:-28], 40) + bm[-28:])
     for _ in range(40 if quick else 400):
         msgs.append(gen_message(rng, rng.sample(names, 3) + [rng.choice(too_long_names())], 'small'))
-    for nm in wire_over_255_names():
+    for nm in (wire_over_255_names() if focus == 'C01' else []):   # a C01 matter (open known finding), not a size/accounting one
         msgs.append(dict(flags=0, multicast=True, id=0, questions=[rec('KQuestion', nm, 12, 1)], answers=[], authorities=[], additionals=[]))
         msgs.append(dict(flags=0x8400, multicast=True, id=0, questions=[], answers=[(rec('KPointer', '_t._tcp.local.', 12, 1, alias=nm), 0)],
                          authorities=[], additionals=[]))
